@@ -42,6 +42,8 @@ SEED_POOL = [0, 0, 1, 2, 7, 42, 12345, 2 ** 32, 2 ** 64 + 1, 2 ** 60 + 1, 179045
 LIB_CALLS = ["optimal_grouping", "equivalent_layers", "circle", "ft2", "centre_of_gravity", "phase_covariance", "covmat", "cn2_to_r0"]
 
 
+ALLOC = [None]          # the allocation-fault seam of the run in progress (installed by execute)
+
 ANALYSES = ["rms_contrast", "image_contrast", "centre_of_gravity", "centre_of_gravity_thr", "brightest_pixel", "azimuthal_average",
             "structure_function", "ft2", "binImgs", "encircled_energy"]
 
@@ -159,8 +161,19 @@ def gen_plan(rng, tier, index=0):
         # influence the original
         clone = ({"at": r.randint(1, rows), "rows": r.randint(1, 4), "how": r.choice(["deepcopy", "pickle", "copy"])}
                  if (kind in ("VK", "KOL") and rows >= 1 and restart is None and r.chance(0.3)) else None)
-        actors.append({"kind": kind, "params": params, "seed": s1, "rows": rows, "twin_of": None, "group": g, "scribble": scrib, "restart": restart, "clone": clone})
+        rx = r.sub("restart-extras")
+        # before restarting, some callers peek at the next row through the public get_new_row(); some restart with another seed
+        # (obj.random_seed = s; obj.make_initial_screen()) - the screen must then be the one of that seed
+        peek = restart is not None and rx.chance(0.4)
+        reseed = None
+        if restart is not None and isinstance(s1, int) and rx.chance(0.35):
+            reseed = rx.choice([s for s in (0, 1, 2, 7, 42, 12345, 2 ** 32, s1 + 1) if s != s1])
+        # an allocation fails while one of the two twins is being built (or called); its caller simply tries again
+        cfault = rx.randint(0, 24) if rx.chance(0.12) else None
+        actors.append({"kind": kind, "params": params, "seed": s1, "rows": rows, "twin_of": None, "group": g, "scribble": scrib, "restart": restart, "clone": clone,
+                       "peek": peek, "restart_seed": reseed})
         actors.append({"kind": kind, "params": params, "seed": s1, "rows": rows, "twin_of": a, "group": g, "scribble": scrib, "restart": restart,
+                       "peek": peek, "restart_seed": reseed, "construct_fault": cfault,
                        "clone": (clone if r.chance(0.5) else None),
                        "mutate_seed_after": (isinstance(s1, dict) and "seq" in s1 and restart is None and r.chance(0.6))})
         if kind in ("FT", "FTSH") and r.chance(0.3):
@@ -223,11 +236,38 @@ class _Actor(object):
         try:
             if self.pc == 0:
                 seed = screens.make_seed(sp["seed"])
-                if kind in ("FT", "FTSH"):
+                if sp.get("construct_fault") is not None and ALLOC[0] is not None:
+                    # injected fault: the n-th allocation inside this call fails. If the call raises, the caller tries again with
+                    # the same seed; if the library copes, so much the better - either way the screen must be the seed's screen
+                    ALLOC[0].arm(sp["construct_fault"])
+                    f0 = ALLOC[0].fired
+                    first = None
+                    try:
+                        if kind in ("FT", "FTSH"):
+                            first = ("finite", screens.call_finite(kind, sp["params"], seed))
+                        else:
+                            first = ("object", screens.construct_infinite(kind, sp["params"], seed))
+                    except Exception:
+                        first = None
+                    finally:
+                        ALLOC[0].disarm()
+                    self.fault_fired = ALLOC[0].fired > f0
+                    if first is None:
+                        seed = screens.make_seed(sp["seed"])          # the call raised: the caller tries again
+                else:
+                    first = None
+                if first is not None:
+                    if first[0] == "finite":
+                        out = first[1]
+                        self.result = out
+                    else:
+                        self.obj = first[1]
+                elif kind in ("FT", "FTSH"):
                     out = screens.call_finite(kind, sp["params"], seed)
                     self.result = out
                 else:
                     self.obj = screens.construct_infinite(kind, sp["params"], seed)
+                if kind not in ("FT", "FTSH"):
                     if sp.get("mutate_seed_after") and isinstance(seed, list):
                         seed[-1] += 1          # the caller reuses its seed list for the next layer: the constructor has returned,
                         seed.append(99)        # the screen must already be what the seed said at the call
@@ -261,6 +301,13 @@ class _Actor(object):
                             except Exception as ex2:
                                 self.clone_trace.append(("raised", type(ex2).__name__))
                 if sp.get("restart") is not None and self.pc == sp["restart"] + 1:
+                    if sp.get("peek"):
+                        try:
+                            self.obj.get_new_row()
+                        except AttributeError:
+                            pass
+                    if sp.get("restart_seed") is not None:
+                        self.obj.random_seed = screens.make_seed(sp["restart_seed"])
                     self.obj.make_initial_screen()
                     out = self.obj.scrn
                     self.restarted_at = self.pc
@@ -448,8 +495,31 @@ def _execute(plan, keep_log=False):
                                 "produced %s: copy and original share state or the copy lost it"
                                 % (i, s["kind"], s["seed"], s["clone"]["how"], at, e, j + 1, tr[at + j]), -1)
                     break
+    for a_ in actors:
+        if getattr(a_, "fault_fired", False):
+            res.count("fault.allocation_failed_during_construction_or_call")
     for i, s in enumerate(specs):
         ra = getattr(actors[i], "restarted_at", None)
+        if ra is not None and s["seed"] != "none" and s.get("restart_seed") is not None:
+            # restarted with another seed: a different screen, and the very screen a fresh object with that seed shows
+            tr = actors[i].trace
+            res.count("oracle.reseeded_restarts_compared")
+            if ra < len(tr) and tr[0][0] == "ok" and tr[ra] == tr[0]:
+                res.violate("restart", "C06:restart-with-another-seed-gives-the-same-screen:%s" % s["kind"],
+                            "actor %d (%s): random_seed set to %r (was %r) and make_initial_screen() called at op %d: the initial screen is the "
+                            "one of the old seed" % (i, s["kind"], s["restart_seed"], s["seed"], ra), -1)
+            for k2, s2 in enumerate(specs):
+                if k2 != i and s2["kind"] == s["kind"] and s2["params"] == s["params"] and s2["seed"] != "none" \
+                        and _seed_key(s2["seed"]) == _seed_key(s["restart_seed"]):
+                    lim = getattr(actors[k2], "restarted_at", None) or len(actors[k2].trace)
+                    for j in range(min(len(tr) - ra, lim)):
+                        if tr[ra + j][0] == "ok" and actors[k2].trace[j][0] == "ok" and tr[ra + j] != actors[k2].trace[j]:
+                            res.violate("restart", "C06:restart-with-another-seed-differs-from-a-fresh-object:%s" % s["kind"],
+                                        "actor %d (%s) restarted with seed %r differs at %s from actor %d built with that seed"
+                                        % (i, s["kind"], s["restart_seed"], "the initial screen" if j == 0 else "row %d" % j, k2), -1)
+                            break
+                    break
+            continue
         if ra is not None and s["seed"] != "none":
             tr = actors[i].trace
             res.count("oracle.restarts_compared")
@@ -604,6 +674,11 @@ def execute(plan, keep_log=False):
     try:
         pool = plan.get("pool") or {}
         kern.configure(pool.get("sched"), pool.get("mode", "inproc"))
+        ALLOC[0] = seams.AllocFault()
+        ALLOC[0].install()
         return _execute(plan, keep_log)
     finally:
+        if ALLOC[0] is not None:
+            ALLOC[0].uninstall()
+            ALLOC[0] = None
         kern.__exit__(None, None, None)
